@@ -143,6 +143,10 @@ _s('vcr/pe/util.go', ['ParseEnvelope', 'parseJSONArrayEnvelope', 'parseJSONObjec
 _s('network/transport/v2/conversation.go', ['conversationManager.check', 'Envelope_TransactionListQuery.checkResponse', 'Envelope_TransactionRangeQuery.checkResponse', 'Envelope_State.checkResponse', 'Envelope_TransactionList.parseTransactions'], 'v2.envelope (reply-type-confusion matrix: every request type × every reply handler, live conversation id)')
 _s('network/transport/v2/transactionlist_handler.go', ['protocol.handleTransactionList'], 'v2.envelope')
 _s('vcr/pe/presentation_submission.go', ['PresentationSubmission.Validate', 'PresentationSubmission.Resolve', 'PresentationSubmissionBuilder.Build'], 'pe.match+validate')
+_s('discovery/module.go', ['Module.Register', 'Module.verifyRegistration', 'Module.validateRegistration', 'Module.validateRetraction'], 'discovery.Register (definitions with optional members absent × registration/retraction presentations with undeterminable signer, missing id/claims)')
+_s('discovery/client.go', ['clientUpdater.updateService'], 'discovery.client.updateService (lists a remote Discovery Server returns)')
+_s('discovery/store.go', ['storePresentation'], 'discovery.client.updateService / discovery.Register')
+_s('http/client/client.go', ['StrictHTTPClient.WithRedirectCheck', 'StrictHTTPClient.Do'], 'httpclient.fetch (stalling servers × every constructor and its WithRedirectCheck copy)')
 _s('discovery/module.go', ['Module.Search'], 'pe.match+validate (the indexing loop of Search is replayed on Match results; the discovery model is C16)')
 _s('vcr/revocation/statuslist2021_verifier.go', ['StatusList2021.Verify', 'StatusList2021.statusList', 'StatusList2021.update', 'StatusList2021.download', 'StatusList2021.verify', 'StatusList2021.validate'], 'revocation.Verify / revocation.statusListCredential')
 _s('vcr/revocation/bitstring.go', ['bitstring.Scan', 'expand'], 'revocation.bitstring.Scan / revocation.statusListCredential')
